@@ -16,6 +16,12 @@ def main (_args : List String) : IO Unit := do
   let mut name := ""
   for l in lines do
     let toks := words l
+    if l.startsWith "msgcase\t" then
+      let (id, text) := runMsgCase (l.dropRightWhile (· == '\n'))
+      stdout.putStrLn s!"item {id}"
+      stdout.putStrLn text
+      stdout.putStrLn "end"
+      continue
     match toks with
     | [] => pure ()
     | "shape" :: id :: _ =>
